@@ -192,8 +192,9 @@ def run(m: Model, r: Report, tier: str) -> None:
     r.check(okz, "R2", f"{rz.qualname}#always-closes",
             "remove_zst_log_handler can return without closing the handler: the queue listener keeps running and the zstd frame of log.json.zst is never "
             "ended (unreadable / truncated log): " + " -> ".join(repr(gz.nodes[p_]) for p_ in pz[-3:]), loc=rz.loc)
-    from sa.uds_rules import ranges_validator_accepts_stored_form
+    from sa.uds_rules import ranges_validator_accepts_stored_form, dddi_sources_accept_stored_form
     ranges_validator_accepts_stored_form(m, r, "R7")
+    dddi_sources_accept_stored_form(m, r, "R7")
     # what the exception handlers of entry_point log is `{e!r}`: the repr of UDS exceptions formats requests / responses through the core helpers, which must be total
     from sa.uds_rules import guarded_enum_coercions
     if guarded_enum_coercions(m, r, "R3", ("gallia.services.uds.core",)) < 1:
